@@ -49,6 +49,20 @@ fn main() {
         );
         return;
     }
+    if args[0] == "--tiny-c06" {
+        // in-process slice of the C06 fault enumeration over tiny stored containers (Miri / valgrind)
+        monitor::install_panic_hook();
+        let g = |i: usize, d: u64| args.get(i).and_then(|x| x.parse().ok()).unwrap_or(d);
+        std::process::exit(props::c06::tiny_run(g(1, 0), g(2, 1), g(3, 40)));
+    }
+    if args[0] == "--tiny-c06-dump" {
+        std::process::exit(props::c06::tiny_dump(&args[1], args.get(2).and_then(|x| x.parse().ok()).unwrap_or(128)));
+    }
+    if args[0] == "--tiny-c06-files" {
+        monitor::install_panic_hook();
+        let g = |i: usize, d: u64| args.get(i).and_then(|x| x.parse().ok()).unwrap_or(d);
+        std::process::exit(props::c06::tiny_files(&args[1], g(2, 0), g(3, 1)));
+    }
     if args[0] == "--replay" {
         let txt = std::fs::read_to_string(&args[1]).expect("cannot read case file");
         let v: serde_json::Value = serde_json::from_str(&txt).expect("bad case file");
